@@ -18,12 +18,14 @@ type TcbLevel struct {
 	Pce    uint16
 	Tdx    [16]byte
 	Status string
+	Date   string // tcbDate (informational; "" = a fixed default)
 }
 
 // ModLevel is one TCB level of a TDX module identity.
 type ModLevel struct {
 	Isvsvn uint32
 	Status string
+	Date   string
 }
 
 // ModuleIdentity is one entry of tcbInfo.tdxModuleIdentities.
@@ -94,7 +96,7 @@ func (d *TcbInfoDoc) JSON() []byte {
 				if j > 0 {
 					sb.WriteByte(',')
 				}
-				fmt.Fprintf(&sb, `{"tcb":{"isvsvn":%d},"tcbDate":"2023-02-15T00:00:00Z","tcbStatus":%q}`, l.Isvsvn, l.Status)
+				fmt.Fprintf(&sb, `{"tcb":{"isvsvn":%d},"tcbDate":%q,"tcbStatus":%q}`, l.Isvsvn, TcbDate(l.Date), l.Status)
 			}
 			sb.WriteString(`]}`)
 		}
@@ -106,8 +108,8 @@ func (d *TcbInfoDoc) JSON() []byte {
 			if i > 0 {
 				sb.WriteByte(',')
 			}
-			fmt.Fprintf(&sb, `{"tcb":{"sgxtcbcomponents":%s,"pcesvn":%d,"tdxtcbcomponents":%s},"tcbDate":"2023-02-15T00:00:00Z","tcbStatus":%q}`,
-				comps(l.Sgx), l.Pce, comps(l.Tdx), l.Status)
+			fmt.Fprintf(&sb, `{"tcb":{"sgxtcbcomponents":%s,"pcesvn":%d,"tdxtcbcomponents":%s},"tcbDate":%q,"tcbStatus":%q}`,
+				comps(l.Sgx), l.Pce, comps(l.Tdx), TcbDate(l.Date), l.Status)
 		}
 		sb.WriteString(`]`)
 	}
@@ -119,6 +121,21 @@ func (d *TcbInfoDoc) JSON() []byte {
 type QELevel struct {
 	Isvsvn uint32
 	Status string
+	Date   string
+}
+
+// TcbDate renders a tcbDate; the lists the PCS publishes carry one per level, and nothing in
+// the properties makes the level order depend on it.
+func TcbDate(d string) string {
+	if d == "" {
+		return "2023-02-15T00:00:00Z"
+	}
+	return d
+}
+
+// RandTcbDate draws an arbitrary tcbDate (so that listed order and date order disagree).
+func RandTcbDate(r Rand) string {
+	return fmt.Sprintf("20%02d-%02d-%02dT00:00:00Z", 15+r.Draw(10), 1+r.Draw(12), 1+r.Draw(28))
 }
 
 // QEIdentityDoc is the content Intel signs in a TD QE Identity response.
@@ -150,7 +167,7 @@ func (d *QEIdentityDoc) JSON() []byte {
 			if i > 0 {
 				sb.WriteByte(',')
 			}
-			fmt.Fprintf(&sb, `{"tcb":{"isvsvn":%d},"tcbDate":"2023-02-15T00:00:00Z","tcbStatus":%q}`, l.Isvsvn, l.Status)
+			fmt.Fprintf(&sb, `{"tcb":{"isvsvn":%d},"tcbDate":%q,"tcbStatus":%q}`, l.Isvsvn, TcbDate(l.Date), l.Status)
 		}
 		sb.WriteString(`]`)
 	}
